@@ -143,7 +143,7 @@ async fn log_thread(
             };
             line += "\r\n";
             stream
-                .write(line.as_bytes())
+                .write_all(line.as_bytes())
                 .await
                 .context("log write error")?;
         } else {
